@@ -6,7 +6,7 @@ from collections import Counter
 
 from ..gen.ledger import Opts, gen_ledger, SecWalk
 from ..probe import probe
-from ..util import rng_for, sha, iso, d as pdate, tax_year_of, ZERO
+from ..util import cap_viols, rng_for, sha, iso, d as pdate, tax_year_of, ZERO
 from . import ledger_core as lc
 
 PROP = "C12"
@@ -134,7 +134,7 @@ def run_shard(desc):
             viols.append(x)
         if len(samples) < 2 and not vs and "ok" in ob and len(prefix) + len(suffix) <= 12:
             samples.append({"prefix": lc.brief(prefix), "suffix": lc.brief(suffix)})
-    return {"evaluations": len(reqs), "nontrivial_hashes": hashes, "counters": cnt, "violations": viols[:20], "samples": samples}
+    return {"evaluations": len(reqs), "nontrivial_hashes": hashes, "counters": cnt, "violations": cap_viols(viols), "samples": samples}
 
 
 def replay(case):
